@@ -29,6 +29,12 @@ def actuators_of(acts):
       d['ctrlrange'] = (render.fl(a['ctrlrange'][0]), render.fl(a['ctrlrange'][1]))
     if a['forcerange']:
       d['forcerange'] = (render.fl(a['forcerange'][0]), render.fl(a['forcerange'][1]))
+    if a.get('stale'):   # range attributes present but switched off: must have no effect
+      d['extra'] = ''
+      if not a['ctrlrange']:
+        d['extra'] += ' ctrllimited="false" ctrlrange="-0.5 0.5"'
+      if not a['forcerange']:
+        d['extra'] += ' forcelimited="false" forcerange="-0.25 0.25"'
     out.append(d)
   return out
 
